@@ -75,9 +75,7 @@ def CAction.exec (env : CoerceEnv) (c : JClass) (d : Py) : CAction → Outcome P
   | .strBranch =>
       match d with
       | .int i => .ok (.str (toString i))
-      | .float f => match assoc? f env.reprOf with
-          | some r => .ok (.str r)
-          | Option.none => .crash "unmodelled-repr"
+      | .float f => .ok (.str (reprFlt env f))
       | _ => badTypeP c d
   | .unknown src => .crash ("untranslated branch: " ++ src)
 
